@@ -30,3 +30,6 @@ META = {
   "technique": "runtime monitor: rational-function model + exact linear "
                "shadow samples through real composite filters",
 }
+
+# EXTENSION families added after the seeded-change rounds
+META["rule"] += (" Added after the seeded-change rounds: " 'the three operand objects are REUSED by every expression of a case and must be unchanged (polynomials, ==, hash, output) at the end; output laws also evaluated from several threads at once' ".")
